@@ -42,8 +42,8 @@ func init() {
 			Old: "\t\tif !rs.DataColumns.Bit(c) {\n\t\t\tcolumn.IsEmpty = true\n\t\t\tvalues.Columns = append(values.Columns, column)\n\t\t\tcontinue", New: "\t\tif !rs.DataColumns.Bit(c) {\n\t\t\tcolumn.IsEmpty = true\n\t\t\tcontinue",
 			Expect: "C13-R2 three-way@getValuesFromRow[absent]"},
 		Variant{ID: "c13-r1-prefix-narrow-shift", Prop: "C13", File: "replication/binlog_event_rbr.go",
-			Old: "\t\tcase 3:\n\t\t\tl = int(uint32(data[pos]) |\n\t\t\t\tuint32(data[pos+1])<<8 |\n\t\t\t\tuint32(data[pos+2])<<16)\n\t\tcase 4:\n\t\t\tl = int(uint32(data[pos]) |\n\t\t\t\tuint32(data[pos+1])<<8 |\n\t\t\t\tuint32(data[pos+2])<<16 |\n\t\t\t\tuint32(data[pos+3])<<24)\n\t\tdefault:\n\t\t\treturn nil, 0, fmt.Errorf(\"unsupported blob metadata value",
-			New: "\t\tcase 3:\n\t\t\tl = int(uint32(data[pos]) |\n\t\t\t\tuint32(data[pos+1])<<8 |\n\t\t\t\tuint32(uint16(data[pos+2])<<16))\n\t\tcase 4:\n\t\t\tl = int(uint32(data[pos]) |\n\t\t\t\tuint32(data[pos+1])<<8 |\n\t\t\t\tuint32(data[pos+2])<<16 |\n\t\t\t\tuint32(data[pos+3])<<24)\n\t\tdefault:\n\t\t\treturn nil, 0, fmt.Errorf(\"unsupported blob metadata value",
+			Old:    "\t\tcase 3:\n\t\t\tl = int(uint32(data[pos]) |\n\t\t\t\tuint32(data[pos+1])<<8 |\n\t\t\t\tuint32(data[pos+2])<<16)\n\t\tcase 4:\n\t\t\tl = int(uint32(data[pos]) |\n\t\t\t\tuint32(data[pos+1])<<8 |\n\t\t\t\tuint32(data[pos+2])<<16 |\n\t\t\t\tuint32(data[pos+3])<<24)\n\t\tdefault:\n\t\t\treturn nil, 0, fmt.Errorf(\"unsupported blob metadata value",
+			New:    "\t\tcase 3:\n\t\t\tl = int(uint32(data[pos]) |\n\t\t\t\tuint32(data[pos+1])<<8 |\n\t\t\t\tuint32(uint16(data[pos+2])<<16))\n\t\tcase 4:\n\t\t\tl = int(uint32(data[pos]) |\n\t\t\t\tuint32(data[pos+1])<<8 |\n\t\t\t\tuint32(data[pos+2])<<16 |\n\t\t\t\tuint32(data[pos+3])<<24)\n\t\tdefault:\n\t\t\treturn nil, 0, fmt.Errorf(\"unsupported blob metadata value",
 			Expect: "C13-R1 verbatim@"},
 	)
 }
